@@ -33,3 +33,30 @@ def ids_tables(repo: Path) -> str:
             "/-- `illegal_chars` of `cds_feature._sanitise_id_value` -/\n"
             f"def illegalGeneChars : List Char := {lean_char_list(''.join(cds))}\n\n"
             "end ASV.Generated.Ids\n")
+
+
+
+# ----------------------------------------------------------------------------- C15
+def _lean_chars(s: str) -> str:
+    return "[" + ", ".join("'" + ch + "'" for ch in s) + "]"
+
+
+@table("Orf")
+def orf_tables(repo: Path) -> str:
+    """START_CODONS / STOP_CODONS of common/all_orfs.py (from the tree under test) and the
+    complement map `Seq.reverse_complement` uses (from the installed Biopython)."""
+    path = repo / "antismash" / "common" / "all_orfs.py"
+    starts = list(literal(path, "START_CODONS"))
+    stops = list(literal(path, "STOP_CODONS"))
+    for codon in starts + stops:
+        if not (isinstance(codon, str) and codon.isascii() and codon.isalnum()):
+            raise ValueError(f"unexpected codon literal {codon!r}")
+    from Bio.Data.IUPACData import ambiguous_dna_complement
+    pairs = sorted(ambiguous_dna_complement.items())
+    pairs += [(a.lower(), b.lower()) for a, b in pairs]
+    comp = ", ".join(f"('{a}', '{b}')" for a, b in pairs)
+    return ("namespace ASV.Orf.Gen\n"
+            f"def startCodons : List (List Char) := [{', '.join(_lean_chars(c) for c in starts)}]\n"
+            f"def stopCodons : List (List Char) := [{', '.join(_lean_chars(c) for c in stops)}]\n"
+            f"def complementPairs : List (Char × Char) := [{comp}]\n"
+            "end ASV.Orf.Gen\n")
